@@ -1233,6 +1233,11 @@ def c14(sc, V, counters=None):
                     for n in tgt:
                         for hn, hv in items:
                             spec = None if refused else _parse_set_hook(hv)
+                            single = len(pr["options"]) == 1 and len(items) == 1 and op[1].get("msg_type") != "cast"
+                            if refused and single:
+                                # the one option of the request was refused: nothing of it may stick (hook and flag stay as they
+                                # were) — the scripted outcomes known so far keep judging the hook
+                                continue
                             if spec is None:
                                 replaced.add((n, hn))          # refused part-way or not understood: outcomes unknown
                             else:
